@@ -60,6 +60,7 @@ def run(ctx):
             impl_f[line.split(" ", 1)[0]] = line
     f_cmp = f_bad = f_states = 0
     f_viol = []
+    rc_bad = sc_bad = fit_n = 0
     evals = judge_bad = 0
     distinct = set()
     samples = []
@@ -93,6 +94,9 @@ def run(ctx):
             agg["leaves"] += int(kv.get("leaves", "0") or 0)
             agg["leaves_spanning_a_gap"] += int(kv.get("gapleaves", "0") or 0)
             agg["char_splitting_lists"] += 1 if kv.get("onb") == "0" else 0
+        rc_bad += 1 if kv.get("rc") == "bad" else 0
+        sc_bad += 1 if kv.get("sc") == "bad" else 0
+        fit_n += 1 if kv.get("fit") == "1" else 0
         cause = kv.get("cause", "-")
         agg["causes"][cause] = agg["causes"].get(cause, 0) + 1
         nontrivial = acc and (int(kv.get("neff", "0") or 0) >= 2 or kv.get("onb") == "0")
@@ -118,6 +122,9 @@ def run(ctx):
         # has a byte range that contains the gap): false by construction, recorded as a finding, not judged
         ctx.violation("judge", "literal reading: a leaf's byte range contains excluded bytes (its characters lie on both sides of a gap)",
                       gap_case, fingerprint={"cause": "literal-leaf-spans-gap"})
+    ctx.oblige("model:rangedChars=lexStream", rc_bad == 0, "%d cases on which the character logic of stream_concat and the full lexer port see different sequences" % rc_bad)
+    ctx.oblige("model:stream_concat-instance", sc_bad == 0, "%d cases with FitRun true but different sequences over ranges and over the concatenation (would contradict the theorem)" % sc_bad)
+    ctx.coverage["stream_concat_hypothesis_true"] = fit_n
     ctx.oblige("corr:lexer-port=lexer.c", f_bad == 0 and (f_cmp > 0 or bool(ctx.replay)), "%d/%d scripted runs differ" % (f_bad, f_cmp))
     ctx.coverage.update({
         "evaluations": evals, "distinct_nontrivial": len(distinct),
